@@ -89,7 +89,10 @@ def main():
             build_all(race=(pid in props.NEEDS_RACE))
         out = fn(work, tier, seed, a.replay)
         if LIFECYCLE_RUNS:
+            # the specification the hook logs are replayed through is itself checked for every interleaving
+            ld = design_check("MC_Lifecycle", "MC_Lifecycle.cfg", work, workers=8, timeout=600)
             lv, summary = lifecycle_violations(pid, work)
+            summary["design"] = {"states": ld.get("distinct"), "transitions": ld.get("generated")}
             out.violations += lv
             out.coverage["lifecycle"] = summary
         return finish(pid, tier, seed, out, t0)
